@@ -2,6 +2,7 @@ package main
 
 import (
 	"fmt"
+	"go/constant"
 	"go/token"
 	"go/types"
 	"sort"
@@ -16,19 +17,23 @@ func init() {
 	register(&Property{
 		ID:        "C04",
 		Title:     "IP set contents equal the addresses selected by the rule",
-		Technique: "static analysis: shape + cut-set guard analysis of every reference-count write, who-may-call of the raw member callbacks against the overlap suppressor's results, backward value slices of member keys (go/ssa over felix/labelindex)",
+		Technique: "static analysis: shape + cut-set guard analysis of every reference-count write, who-may-call of the raw member callbacks against the overlap suppressor's results, backward value slices of member keys; path-fact exploration of the scan-strategy selection; prefix-length dependence slices of the ip.CIDRTrie queries behind the suppressor (go/ssa over felix/labelindex and felix/ip)",
 		DesignRef: "DESIGN.md §3 C04",
 		Explanation: "Decides the reference-counting and overlap-suppression discipline of SelectorAndNamedPortIndex: (refcount) every write to ipSetData.memberToRefCount is `old+1` executed whenever the count is read, with the add wrapper called exactly on the 0→1 edge, " +
 			"or `old-1` stored exactly when the result is non-zero and otherwise the remove wrapper plus delete of the entry; no other write shape exists; " +
 			"(suppressor) OnMemberAdded/OnMemberRemoved are invoked only inside the wrappers that consult OverlapSuppressor.Add/Remove, with the polarity dictated by the suppressor's results (primary result non-nil → same direction, secondary slice → opposite direction, non-CIDR members pass through); " +
 			"deleting an IP set also deletes its suppressor state, and memberDeduplicator.DeleteIPSet drops every per-set trie map that getTrie fills; " +
 			"(contribsym) the members that are incremented and those that are decremented are both results of CalculateEndpointContribution (directly or via RecalcCachedContributions); " +
-			"(cached) every increment site first records the IP set id in the endpoint's cached matching-set collection that RecalcCachedContributions later ranges over for the decrement.",
-		NotDecided: "Membership arithmetic over histories (that counts equal the number of contributing endpoints); correctness of ip.CIDRTrie Covers/ClosestDescendants and hence that emitted members cover exactly the same addresses; candidate pruning by iterEndpointCandidates/AllPotentialMatches (see C07.restrict for the per-leaf half); that the set id passed to the wrappers is the id of the ipSetData whose count changed.",
+			"(cached) every increment site first records the IP set id in the endpoint's cached matching-set collection that RecalcCachedContributions later ranges over for the decrement; " +
+			"(candidates) the scan strategy that one label index (endpoint-own or parent) offers for a selector restriction is adopted as the candidate scan (stored, merged, returned, scanned) only where every feasible path has tested the other index's strategy for the same label and restriction to be empty; " +
+			"(trieprefix) every ip.CIDRTrie/CIDRNode function reachable from the overlap suppressor that takes a CIDR lets a branch or result depend on that CIDR's prefix length - not only on Addr()/Version(), which hide it - itself or through the trie function it hands the CIDR to, and a boolean answer true (Covers) is on every path preceded by such a test.",
+		NotDecided: "Membership arithmetic over histories (that counts equal the number of contributing endpoints); functional correctness of ip.CIDRTrie Covers/ClosestDescendants beyond their dependence on the prefix length (hence that emitted members cover exactly the same addresses); that an adopted scan strategy yields a superset of the matching items and the early return when a restriction rules out both indexes (see C07.restrict for the per-leaf half); emptiness tests hidden inside helper functions (the rule then fires: re-confirm); that the set id passed to the wrappers is the id of the ipSetData whose count changed.",
 		Assumptions: []string{
 			"go/types + go/ssa (x/tools v0.50.0) model of the current source, CGO_ENABLED=0 build",
 			"Go map semantics for memberToRefCount (missing key reads 0)",
 			"logrus Panic*/Fatal* do not return",
+			"ScanStrategy.EstimatedItemsToScan() is a non-negative count and zero means the scan yields nothing",
+			"the methods of ip.CIDR none of whose implementations read the fields that Prefix() reads do not reveal the prefix length",
 		},
 		Run: runC04,
 		Fixtures: []Fixture{
@@ -57,6 +62,14 @@ func init() {
 				Old: "\tdelete(t.v4tries, set)\n\tdelete(t.v6tries, set)\n", New: "\tdelete(t.v4tries, set)\n", Expect: "C04.suppressor/tries/"},
 			{Name: "decrement members computed by a different function", File: "felix/labelindex/named_port_index.go",
 				Old: "\t\tcontrib[ipSetID] = idx.CalculateEndpointContribution(epData, ipSetData)\n", New: "\t\tvar ms []ipsetmember.IPSetMember\n\t\tfor _, a := range epData.nets {\n\t\t\tms = append(ms, ipsetmember.MakeCIDROrIPOnly(a))\n\t\t}\n\t\t_ = ipSetData\n\t\tcontrib[ipSetID] = ms\n", Expect: "C04.contribsym/"},
+			{Name: "C04-2: endpoint-label strategy adopted although the label also lives on profiles", File: "felix/labelindex/named_port_index.go",
+				Old: "\t\tif epsToScan > 0 && parentsToScan == 0 {", New: "\t\tif epsToScan > 0 {", Expect: "C04.candidates/SelectorAndNamedPortIndex.iterEndpointCandidates/adopt(endpointKVIdx)"},
+			{Name: "parent-label strategy adopted although endpoints carry the label themselves", File: "felix/labelindex/named_port_index.go",
+				Old: "\t\t} else if epsToScan == 0 && parentsToScan > 0 {", New: "\t\t} else if parentsToScan > 0 {", Expect: "C04.candidates/SelectorAndNamedPortIndex.iterEndpointCandidates/adopt(parentKVIdx)"},
+			{Name: "C04-1: covers() tests only that the node contains the query's base address", File: "felix/ip/trie.go",
+				Old: "\tcommonPfx := CommonPrefix(n.cidr, cidr)\n\tif commonPfx != n.cidr {", New: "\tif !n.cidr.Contains(cidr.Addr()) {", Expect: "C04.trieprefix/positive/CIDRNode.covers"},
+			{Name: "getNode matches a node on its base address only (ClosestDescendants of the wrong node)", File: "felix/ip/trie.go",
+				Old: "\tif cidr == n.cidr {\n\t\tif !includeIntermediates && n.data == nil {", New: "\tif cidr.Addr() == n.cidr.Addr() {\n\t\tif !includeIntermediates && n.data == nil {", Expect: "C04.trieprefix/dep/CIDRNode.getNode"},
 			{Name: "match not cached, so never decremented", File: "felix/labelindex/named_port_index.go",
 				Old: "\t\tepData.AddMatchingIPSetID(ipSetID)\n\t\tfor _, member := range contrib {", New: "\t\tfor _, member := range contrib {", Expect: "C04.cached/"},
 		},
@@ -91,6 +104,8 @@ func runC04(c *Ctx) {
 	c.Rule("C04.refcount", "E-GUARD/E-PAIR", "every write to memberToRefCount is old+1 (always stored; add wrapper exactly on 0→1) or old-1 (stored iff non-zero; else remove wrapper + delete)", 11)
 	c.Rule("C04.suppressor", "E-OWN/E-GUARD", "raw OnMemberAdded/OnMemberRemoved only inside the suppressor wrappers with polarity dictated by OverlapSuppressor results; IP set deletion clears suppressor state and all trie maps", 9)
 	c.Rule("C04.contribsym", "E-FLOW", "keys of increments and decrements both originate from CalculateEndpointContribution", 5)
+	c.Rule("C04.candidates", "E-GUARD", "the scan strategy one label index offers for a restriction is adopted as the candidate scan only where, on every path, the other index's strategy for the same restriction was tested to be empty", 2)
+	c.Rule("C04.trieprefix", "E-FLOW/E-GUARD", "every ip.CIDRTrie function the overlap suppressor reaches lets branches/results depend on the queried CIDR's prefix length (not only Addr()/Version()); a boolean containment answer true is always preceded by such a test", 8)
 	c.Rule("C04.cached", "E-ORDER", "every increment site is dominated by recording the IP set id in the endpoint's cached matching-set collection", 2)
 
 	m := &c04Model{c: c, p: p, pd: map[*ssa.Function]map[*ssa.BasicBlock]map[*ssa.BasicBlock]bool{}, addW: map[*ssa.Function]bool{}, remW: map[*ssa.Function]bool{}}
@@ -140,6 +155,8 @@ func runC04(c *Ctx) {
 	c04Suppressor(c, m, supT)
 	incs := c04Refcount(c, m)
 	c04ContribSym(c, m, incs)
+	c04Candidates(c, m, idxT)
+	c04TriePrefix(c, supT)
 }
 
 // supCalls: invoke-mode calls of OverlapSuppressor methods on the index's suppressor field.
@@ -863,5 +880,661 @@ func c04ContribSym(c *Ctx, m *c04Model, incs []c04Inc) {
 		c.Check(ok, "C04.cached/"+fnName(inc.fn), p.Pos(inc.mu.Pos()),
 			"increment dominated by recording the set id in "+cachedFld.Name(),
 			fmt.Sprintf("in %s members are incremented without first recording the IP set id in the endpoint's %s: the endpoint's later update/deletion will not decrement them and the members stay in the IP set forever", fnName(inc.fn), cachedFld.Name()))
+	}
+}
+
+// -------------------------------------------------------------- candidates --
+
+// c04Candidates: the endpoint-label index and the parent-label index are two
+// sources of candidates for one label restriction (an endpoint may satisfy it
+// through its own label or through an inherited one).  The scan strategy that ONE
+// index offers for a restriction may therefore only be adopted (stored in a
+// variable, merged, returned, scanned) where every OTHER index has been shown to
+// have nothing for the same restriction: on every path to the adoption an edge
+// establishes  otherIndex.StrategyFor(same key, same restriction).EstimatedItemsToScan() <= 0.
+func c04Candidates(c *Ctx, m *c04Model, idxT *types.TypeName) {
+	p := m.p
+	const lnvPkg = "felix/labelindex/labelnamevalueindex"
+	ssT, _ := p.LookupExt(lnvPkg, "ScanStrategy").(*types.TypeName)
+	if ssT == nil {
+		c.Lost("%s.ScanStrategy", lnvPkg)
+	}
+	ssI, _ := ssT.Type().Underlying().(*types.Interface)
+	if ssI == nil {
+		c.Lost("%s.ScanStrategy is not an interface", lnvPkg)
+	}
+	has := map[string]bool{}
+	for i := 0; i < ssI.NumMethods(); i++ {
+		has[ssI.Method(i).Name()] = true
+	}
+	const estName, scanName = "EstimatedItemsToScan", "Scan"
+	if !has[estName] || !has[scanName] {
+		c.Lost("ScanStrategy.%s / ScanStrategy.%s", estName, scanName)
+	}
+	// candidate sources: the index fields of SelectorAndNamedPortIndex
+	var srcs []*types.Var
+	st := idxT.Type().Underlying().(*types.Struct)
+	for i := 0; i < st.NumFields(); i++ {
+		if qualTypeName(derefType(st.Field(i).Type())) == lnvPkg+".LabelNameValueIndex" {
+			srcs = append(srcs, st.Field(i))
+		}
+	}
+	if len(srcs) < 2 {
+		c.Lost("SelectorAndNamedPortIndex has %d fields of type *LabelNameValueIndex (expected the endpoint and the parent index)", len(srcs))
+	}
+	isSrc := func(v *types.Var) bool {
+		for _, s := range srcs {
+			if s == v {
+				return true
+			}
+		}
+		return false
+	}
+	type stratCall struct {
+		call *ssa.Call
+		fld  *types.Var
+	}
+	strategyCalls := func(fn *ssa.Function) []stratCall {
+		var out []stratCall
+		for _, cs := range callsIn(fn, false, func(f *types.Func) bool { return isFunc(f, lnvPkg, "LabelNameValueIndex.StrategyFor") }) {
+			call, ok := cs.Instr.(*ssa.Call)
+			if !ok || len(cs.Common().Args) != 3 {
+				continue
+			}
+			if fv := fieldVar(cs.Common().Args[0]); fv != nil && isSrc(fv) {
+				out = append(out, stratCall{call, fv})
+			}
+		}
+		return out
+	}
+	n := 0
+	for _, fn := range m.funcs {
+		calls := strategyCalls(fn)
+		// every value  <StrategyFor result>.EstimatedItemsToScan()  in fn
+		var ests []ssa.Value
+		allInstrs(fn, false, func(_ *ssa.Function, in ssa.Instruction) {
+			if ec, ok := in.(*ssa.Call); ok && ec.Common().IsInvoke() && ec.Common().Method.Name() == estName {
+				for _, oc := range calls {
+					if ssa.Value(oc.call) == ec.Common().Value {
+						ests = append(ests, ec)
+					}
+				}
+			}
+		})
+		for _, sc := range calls {
+			// adoption sites of this strategy value
+			var sites []ssa.Instruction
+			for _, r := range *sc.call.Referrers() {
+				switch u := r.(type) {
+				case *ssa.Store:
+					if u.Val == ssa.Value(sc.call) {
+						sites = append(sites, u)
+					}
+				case *ssa.MapUpdate:
+					if u.Value == ssa.Value(sc.call) {
+						sites = append(sites, u)
+					}
+				case *ssa.Return:
+					sites = append(sites, u)
+				case *ssa.MakeClosure:
+					sites = append(sites, u)
+				case *ssa.Phi:
+					for i, e := range u.Edges {
+						if e == ssa.Value(sc.call) {
+							pb := u.Block().Preds[i]
+							sites = append(sites, pb.Instrs[len(pb.Instrs)-1])
+						}
+					}
+				case ssa.CallInstruction:
+					if cc := u.Common(); cc.IsInvoke() && cc.Value == ssa.Value(sc.call) && cc.Method.Name() == scanName {
+						sites = append(sites, u)
+					}
+				}
+			}
+			if len(sites) == 0 {
+				continue
+			}
+			n++
+			var bad []string
+			for _, other := range srcs {
+				if other == sc.fld {
+					continue
+				}
+				// the estimates of the other index's strategy for the same restriction
+				need := map[ssa.Value]bool{}
+				for _, e := range ests {
+					ec := e.(*ssa.Call)
+					for _, oc := range calls {
+						if oc.fld == other && ssa.Value(oc.call) == ec.Common().Value &&
+							oc.call.Common().Args[1] == sc.call.Common().Args[1] && oc.call.Common().Args[2] == sc.call.Common().Args[2] {
+							need[e] = true
+						}
+					}
+				}
+				for _, s := range sites {
+					if !c04ZeroOnEveryPath(s, ests, need) {
+						bad = append(bad, fmt.Sprintf("adoption at %s can be reached without %s.StrategyFor(same label, same restriction).%s() having been tested to be zero", p.Pos(s.Pos()), other.Name(), estName))
+					}
+				}
+			}
+			c.Check(len(bad) == 0, fmt.Sprintf("C04.candidates/%s/adopt(%s)", fnName(topFn(fn)), sc.fld.Name()), p.Pos(sc.call.Pos()),
+				fmt.Sprintf("%s's strategy for a restriction is adopted (%d site(s)) only where every other index has nothing for that restriction", sc.fld.Name(), len(sites)),
+				fmt.Sprintf("in %s the scan strategy that %s offers for a label restriction becomes the candidate scan although another index may also hold items for the same restriction: %s. Endpoints/network sets that satisfy the restriction only through the other index (own vs. inherited label) are never evaluated, so their addresses are missing from a newly created IP set",
+					fnName(topFn(fn)), sc.fld.Name(), strings.Join(bad, "; ")))
+		}
+	}
+	if n == 0 {
+		c.Lost("no adoption of a LabelNameValueIndex.StrategyFor result found")
+	}
+}
+
+// c04ZeroOnEveryPath explores the CFG of target's function from its entry,
+// tracking for every estimate value in ests (a non-negative count) whether the
+// branch conditions passed so far leave it possibly zero and/or possibly positive
+// (comparisons with integer constants; contradictory edges are infeasible).  It
+// reports whether on every feasible path that reaches target's block some value
+// in need is known to be zero.
+func c04ZeroOnEveryPath(target ssa.Instruction, ests []ssa.Value, need map[ssa.Value]bool) bool {
+	const mayZero, mayPos = 1, 2
+	fn := target.Parent()
+	if fn == nil || len(fn.Blocks) == 0 {
+		return false
+	}
+	idx := map[ssa.Value]int{}
+	for i, e := range ests {
+		idx[e] = i
+	}
+	type node struct {
+		b  *ssa.BasicBlock
+		st string
+	}
+	start := make([]byte, len(ests))
+	for i := range start {
+		start[i] = mayZero | mayPos
+	}
+	seen := map[node]bool{}
+	stack := []node{{fn.Blocks[0], string(start)}}
+	// sat: which of {zero, positive} can satisfy  E op k
+	sat := func(op token.Token, k int64) byte {
+		var r byte
+		z, pos := false, false
+		switch op {
+		case token.EQL:
+			z, pos = k == 0, k > 0
+		case token.NEQ:
+			z, pos = k != 0, true
+		case token.LSS:
+			z, pos = 0 < k, k > 1
+		case token.LEQ:
+			z, pos = 0 <= k, k >= 1
+		case token.GTR:
+			z, pos = 0 > k, true
+		case token.GEQ:
+			z, pos = 0 >= k, true
+		default:
+			return mayZero | mayPos
+		}
+		if z {
+			r |= mayZero
+		}
+		if pos {
+			r |= mayPos
+		}
+		return r
+	}
+	for len(stack) > 0 {
+		n := stack[len(stack)-1]
+		stack = stack[:len(stack)-1]
+		st := []byte(n.st)
+		// an estimate (re)computed in this block is unconstrained again
+		for _, in := range n.b.Instrs {
+			if v, ok := in.(ssa.Value); ok {
+				if i, ok := idx[v]; ok {
+					st[i] = mayZero | mayPos
+				}
+			}
+		}
+		n.st = string(st)
+		if seen[n] {
+			continue
+		}
+		seen[n] = true
+		if n.b == target.Block() {
+			ok := false
+			for e := range need {
+				if st[idx[e]] == mayZero {
+					ok = true
+				}
+			}
+			if !ok {
+				return false
+			}
+			continue
+		}
+		if isPanicBlock(n.b) {
+			continue
+		}
+		ifi, isIf := n.b.Instrs[len(n.b.Instrs)-1].(*ssa.If)
+		if !isIf || len(n.b.Succs) != 2 || n.b.Succs[0] == n.b.Succs[1] {
+			for _, s := range n.b.Succs {
+				stack = append(stack, node{s, n.st})
+			}
+			continue
+		}
+		for k, s := range n.b.Succs {
+			cond, pol := stripNot(ifi.Cond, k == 0)
+			ns := []byte(n.st)
+			feasible := true
+			if bo, ok := cond.(*ssa.BinOp); ok {
+				op, e, kv := bo.Op, bo.X, bo.Y
+				if _, isC := constOf(e); isC {
+					e, kv = kv, e
+					switch op {
+					case token.LSS:
+						op = token.GTR
+					case token.LEQ:
+						op = token.GEQ
+					case token.GTR:
+						op = token.LSS
+					case token.GEQ:
+						op = token.LEQ
+					}
+				}
+				if i, isE := idx[e]; isE {
+					if cv, isC := constOf(kv); isC && cv.Kind() == constant.Int {
+						if kk, exact := constant.Int64Val(cv); exact {
+							if !pol {
+								switch op {
+								case token.EQL:
+									op = token.NEQ
+								case token.NEQ:
+									op = token.EQL
+								case token.LSS:
+									op = token.GEQ
+								case token.LEQ:
+									op = token.GTR
+								case token.GTR:
+									op = token.LEQ
+								case token.GEQ:
+									op = token.LSS
+								}
+							}
+							ns[i] &= sat(op, kk)
+							if ns[i] == 0 {
+								feasible = false
+							}
+						}
+					}
+				}
+			}
+			if feasible {
+				stack = append(stack, node{s, string(ns)})
+			}
+		}
+	}
+	return true
+}
+
+// -------------------------------------------------------------- trieprefix --
+
+// c04TriePrefix: the overlap suppressor decides what to emit from ip.CIDRTrie
+// queries about a CIDR.  Two CIDRs with the same base address but different
+// prefix lengths (10.0.0.0/16 vs 10.0.0.0/24) are different queries, so
+//
+//	(dep)      every trie function reachable from the suppressor that takes a CIDR
+//	           must let a branch condition or result depend on the CIDR's prefix
+//	           length - not only on projections that hide it (Addr(), Version()) -
+//	           either itself or through the trie function it hands the CIDR to;
+//	(positive) a boolean containment answer `true` ("some entry covers the CIDR")
+//	           must, on every path, be preceded by a test that depends on the
+//	           queried CIDR's prefix length.
+func c04TriePrefix(c *Ctx, supT *types.TypeName) {
+	const ipPkg = "felix/ip"
+	p := c.Load(ipPkg, c04Pkg)
+	ipk := p.Pkg(ipPkg)
+	if ipk == nil || p.SSAPkg(ipPkg) == nil {
+		c.Lost("package %s", ipPkg)
+	}
+	cidrT, _ := p.LookupObj(ipPkg, "CIDR").(*types.TypeName)
+	trieT, _ := p.LookupObj(ipPkg, "CIDRTrie").(*types.TypeName)
+	if cidrT == nil || trieT == nil {
+		c.Lost("ip.CIDR / ip.CIDRTrie")
+	}
+	cidrI, _ := cidrT.Type().Underlying().(*types.Interface)
+	if cidrI == nil {
+		c.Lost("ip.CIDR is not an interface")
+	}
+	// fields holding the prefix length: those read by the implementations of CIDR.Prefix
+	var prefixM *types.Func
+	for i := 0; i < cidrI.NumMethods(); i++ {
+		if cidrI.Method(i).Name() == "Prefix" {
+			prefixM = cidrI.Method(i)
+		}
+	}
+	if prefixM == nil {
+		c.Lost("ip.CIDR.Prefix")
+	}
+	prefixFld := map[*types.Var]bool{}
+	readsOf := func(fn *ssa.Function, into map[*types.Var]bool) {
+		for f := range p.closure(fn) {
+			if f.Pkg != p.SSAPkg(ipPkg) {
+				continue
+			}
+			allInstrs(f, true, func(_ *ssa.Function, in ssa.Instruction) {
+				switch x := in.(type) {
+				case *ssa.Field:
+					if v := structField(x.X.Type(), x.Field); v != nil {
+						into[v] = true
+					}
+				case *ssa.FieldAddr:
+					if v := structField(x.X.Type(), x.Field); v != nil {
+						into[v] = true
+					}
+				}
+			})
+		}
+	}
+	impls := p.implsOf(prefixM)
+	if len(impls) < 2 {
+		c.Lost("implementations of ip.CIDR.Prefix (found %d)", len(impls))
+	}
+	for _, f := range impls {
+		readsOf(f, prefixFld)
+	}
+	if len(prefixFld) == 0 {
+		c.Lost("no field read by the implementations of ip.CIDR.Prefix")
+	}
+	// methods of CIDR none of whose implementations touches a prefix field
+	blind := map[string]bool{}
+	for i := 0; i < cidrI.NumMethods(); i++ {
+		mth := cidrI.Method(i)
+		is := p.implsOf(mth)
+		ok := len(is) >= len(impls)
+		for _, f := range is {
+			rd := map[*types.Var]bool{}
+			readsOf(f, rd)
+			for v := range rd {
+				if prefixFld[v] {
+					ok = false
+				}
+			}
+		}
+		if ok {
+			blind[mth.Name()] = true
+		}
+	}
+	if !blind["Addr"] || blind["Prefix"] {
+		c.Lost("classification of ip.CIDR methods by whether they expose the prefix length (Addr blind: %v, Prefix blind: %v)", blind["Addr"], blind["Prefix"])
+	}
+	isCIDR := func(t types.Type) bool { return types.Identical(t, cidrT.Type()) }
+
+	// the trie functions the suppressor reaches
+	supI := supT.Type().Underlying().(*types.Interface)
+	var roots []*ssa.Function
+	lsup, _ := p.LookupObj(c04Pkg, "OverlapSuppressor").(*types.TypeName)
+	if lsup == nil {
+		c.Lost("OverlapSuppressor")
+	}
+	_ = supI
+	li := lsup.Type().Underlying().(*types.Interface)
+	for i := 0; i < li.NumMethods(); i++ {
+		roots = append(roots, p.implsOf(li.Method(i))...)
+	}
+	if len(roots) == 0 {
+		c.Lost("implementations of OverlapSuppressor")
+	}
+	var family []*ssa.Function
+	paramsOf := map[*ssa.Function][]*ssa.Parameter{}
+	for f := range p.closure(roots...) {
+		if f.Pkg != p.SSAPkg(ipPkg) || f.Blocks == nil || f.Parent() != nil {
+			continue
+		}
+		onTrie := false
+		for _, pa := range f.Params {
+			if n := namedTypeName(derefType(pa.Type())); (n == "CIDRTrie" || n == "CIDRNode") && qualTypeName(derefType(pa.Type())) == ipPkg+"."+n {
+				onTrie = true
+			}
+		}
+		if !onTrie {
+			continue
+		}
+		for _, pa := range f.Params {
+			if isCIDR(pa.Type()) {
+				paramsOf[f] = append(paramsOf[f], pa)
+			}
+		}
+		if len(paramsOf[f]) > 0 {
+			family = append(family, f)
+		}
+	}
+	sort.Slice(family, func(i, j int) bool { return family[i].Pos() < family[j].Pos() })
+	if len(family) < 4 {
+		c.Lost("only %d ip.CIDRTrie/CIDRNode functions with a CIDR parameter are reachable from the overlap suppressor", len(family))
+	}
+	inFamily := map[*ssa.Function]bool{}
+	for _, f := range family {
+		inFamily[f] = true
+	}
+
+	// slice: does v depend on the prefix length of parameter P?  grounded: through a
+	// use that exposes it; delegs: only by handing P to these family functions.
+	type dkey struct {
+		f *ssa.Function
+		i int
+	}
+	type sliceRes struct {
+		grounded bool
+		delegs   map[dkey]bool
+	}
+	var slice func(v ssa.Value, P *ssa.Parameter, seen map[ssa.Value]bool, res *sliceRes)
+	slice = func(v ssa.Value, P *ssa.Parameter, seen map[ssa.Value]bool, res *sliceRes) {
+		if v == nil || seen[v] || res.grounded {
+			return
+		}
+		seen[v] = true
+		if v == ssa.Value(P) {
+			res.grounded = true
+			return
+		}
+		in, ok := v.(ssa.Instruction)
+		if !ok {
+			return
+		}
+		if call, ok := v.(*ssa.Call); ok {
+			cc := call.Common()
+			if cc.IsInvoke() && cc.Value == ssa.Value(P) {
+				if !blind[cc.Method.Name()] {
+					res.grounded = true
+					return
+				}
+				for _, a := range cc.Args {
+					slice(a, P, seen, res)
+				}
+				return
+			}
+			if sf := cc.StaticCallee(); sf != nil && inFamily[sf] {
+				for i, a := range cc.Args {
+					if a == ssa.Value(P) && i < len(sf.Params) && isCIDR(sf.Params[i].Type()) {
+						res.delegs[dkey{sf, i}] = true
+					} else {
+						slice(a, P, seen, res)
+					}
+				}
+				return
+			}
+		}
+		if ld, ok := v.(*ssa.UnOp); ok && ld.Op == token.MUL {
+			if al, ok := ld.X.(*ssa.Alloc); ok {
+				for _, r := range *al.Referrers() {
+					if st, ok := r.(*ssa.Store); ok && st.Addr == ssa.Value(al) {
+						slice(st.Val, P, seen, res)
+					}
+				}
+				return
+			}
+		}
+		for _, op := range in.Operands(nil) {
+			if op != nil && *op != nil {
+				slice(*op, P, seen, res)
+			}
+		}
+	}
+	sliceOf := func(v ssa.Value, P *ssa.Parameter) *sliceRes {
+		r := &sliceRes{delegs: map[dkey]bool{}}
+		slice(v, P, map[ssa.Value]bool{}, r)
+		return r
+	}
+	// (dep) least fixpoint over the family
+	type fnSum struct {
+		grounded bool
+		delegs   map[dkey]bool
+	}
+	sum := map[dkey]*fnSum{}
+	pidx := func(f *ssa.Function, P *ssa.Parameter) int {
+		for i, q := range f.Params {
+			if q == P {
+				return i
+			}
+		}
+		return -1
+	}
+	for _, f := range family {
+		for _, P := range paramsOf[f] {
+			s := &fnSum{delegs: map[dkey]bool{}}
+			add := func(r *sliceRes) {
+				s.grounded = s.grounded || r.grounded
+				for d := range r.delegs {
+					s.delegs[d] = true
+				}
+			}
+			for _, b := range f.Blocks {
+				for _, in := range b.Instrs {
+					switch x := in.(type) {
+					case *ssa.If:
+						add(sliceOf(x.Cond, P))
+					case *ssa.Return:
+						for _, rv := range x.Results {
+							add(sliceOf(rv, P))
+						}
+					case ssa.CallInstruction:
+						// handing the CIDR to another trie function, whatever happens to the result
+						if sf := x.Common().StaticCallee(); sf != nil && inFamily[sf] && !x.Common().IsInvoke() {
+							for i, a := range x.Common().Args {
+								if a == ssa.Value(P) && i < len(sf.Params) && isCIDR(sf.Params[i].Type()) {
+									s.delegs[dkey{sf, i}] = true
+								}
+							}
+						}
+					}
+				}
+			}
+			sum[dkey{f, pidx(f, P)}] = s
+		}
+	}
+	dep := map[dkey]bool{}
+	for changed := true; changed; {
+		changed = false
+		for k, s := range sum {
+			if dep[k] {
+				continue
+			}
+			ok := s.grounded
+			for d := range s.delegs {
+				if d != k && dep[d] {
+					ok = true
+				}
+			}
+			if ok {
+				dep[k] = true
+				changed = true
+			}
+		}
+	}
+	depends := func(v ssa.Value, P *ssa.Parameter) bool {
+		r := sliceOf(v, P)
+		if r.grounded {
+			return true
+		}
+		for d := range r.delegs {
+			if dep[d] {
+				return true
+			}
+		}
+		return false
+	}
+	for _, f := range family {
+		for _, P := range paramsOf[f] {
+			k := dkey{f, pidx(f, P)}
+			var via []string
+			for d := range sum[k].delegs {
+				via = append(via, fnName(d.f))
+			}
+			sort.Strings(via)
+			c.Check(dep[k], fmt.Sprintf("C04.trieprefix/dep/%s(%s)", fnName(f), P.Name()), p.Pos(f.Pos()),
+				fmt.Sprintf("branches/results depend on the prefix length of %s (directly: %v; via %v)", P.Name(), sum[k].grounded, via),
+				fmt.Sprintf("%s uses its CIDR argument %s only through projections that hide the prefix length (%s) and through calls %v that do the same: it cannot tell 10.0.0.0/16 from 10.0.0.0/24, so the overlap suppressor masks, withdraws or re-advertises the wrong members",
+					fnName(f), P.Name(), strings.Join(sortedKeys(blind), "(), ")+"()", via))
+		}
+	}
+	// (positive) boolean containment answers
+	nPos := 0
+	for _, f := range family {
+		res := f.Signature.Results()
+		if res.Len() != 1 || !types.Identical(res.At(0).Type().Underlying(), types.Typ[types.Bool]) {
+			continue
+		}
+		for _, P := range paramsOf[f] {
+			nPos++
+			var bad []string
+			var leaf func(v ssa.Value, site ssa.Instruction, seen map[ssa.Value]bool)
+			leaf = func(v ssa.Value, site ssa.Instruction, seen map[ssa.Value]bool) {
+				if seen[v] {
+					return
+				}
+				seen[v] = true
+				if phi, ok := v.(*ssa.Phi); ok {
+					for i, e := range phi.Edges {
+						pb := phi.Block().Preds[i]
+						leaf(e, pb.Instrs[len(pb.Instrs)-1], seen)
+					}
+					return
+				}
+				what := "a computed answer"
+				if call, ok := v.(*ssa.Call); ok {
+					if sf := call.Common().StaticCallee(); sf != nil && inFamily[sf] && sf.Signature.Results().Len() == 1 &&
+						types.Identical(sf.Signature.Results().At(0).Type().Underlying(), types.Typ[types.Bool]) {
+						for i, a := range call.Common().Args {
+							if a == ssa.Value(P) && i < len(sf.Params) && isCIDR(sf.Params[i].Type()) {
+								return // the callee answers for the same CIDR and has its own obligation
+							}
+						}
+					}
+				}
+				if cv, ok := constOf(v); ok {
+					if cv.Kind() == constant.Bool && !constant.BoolVal(cv) {
+						return
+					}
+					what = "the answer true"
+				} else if depends(v, P) {
+					return
+				}
+				if ifi, ok := site.(*ssa.If); ok && depends(ifi.Cond, P) {
+					return
+				}
+				if !guardedCut(site, func(cond ssa.Value, _ bool) bool { return depends(cond, P) }) {
+					bad = append(bad, fmt.Sprintf("%s at %s", what, p.Pos(site.Pos())))
+				}
+			}
+			for _, r := range returnsOf(f) {
+				leaf(r.Results[0], r, map[ssa.Value]bool{})
+			}
+			c.Check(len(bad) == 0, fmt.Sprintf("C04.trieprefix/positive/%s(%s)", fnName(f), P.Name()), p.Pos(f.Pos()),
+				"every positive answer is preceded by a test that depends on the queried CIDR's prefix length",
+				fmt.Sprintf("%s can give %s without any test that depends on the prefix length of %s: an entry NARROWER than the queried CIDR that merely contains its base address counts as covering it, so memberDeduplicator.Add suppresses a broader CIDR (addresses missing from the IP set) and Remove swallows its withdrawal",
+					fnName(f), strings.Join(bad, ", "), P.Name()))
+		}
+	}
+	if nPos == 0 {
+		c.Lost("no boolean CIDR query of ip.CIDRTrie is reachable from the overlap suppressor")
 	}
 }
